@@ -32,7 +32,7 @@ impl Monitor for C07 {
     }
     fn generate(&self, r: &mut Rng, _tier: Tier, _i: u64) -> SolverCase {
         let (name, cfg) = pick_family(r, FAMILIES);
-        let (u, p) = gener::generate(r, &cfg);
+        let (name, (u, p)) = if r.chance(1, 40) { ("wide-union", gener::wide_union(r)) } else { (name, gener::generate(r, &cfg)) };
         SolverCase { family: name.into(), u, p: p.hard(), runs: standard_runs(r, 3) }
     }
     fn check(&self, c: &SolverCase, ctx: &mut Ctx) {
